@@ -405,6 +405,11 @@ pub struct SimCore {
     /// Storage operations per simulated second (1: every operation is a new second; large:
     /// everything a run does happens within one second).
     pub clock_div: std::sync::atomic::AtomicI64,
+    /// 0: every simulated process runs on a current-thread tokio runtime (whose task order
+    /// the simulator decides through its delay seam). n > 0: a REAL multi-thread runtime with
+    /// n workers - scheduling inside it is the operating system's, not the simulator's; only
+    /// C17 uses it, as one more replay flavour.
+    pub runtime_workers: AtomicU32,
 }
 
 /// Order-independent digest of every operation log of this process (XOR of per-world log
@@ -455,6 +460,7 @@ impl SimCore {
             op_budget: AtomicU32::new(200_000),
             clock_base: std::sync::atomic::AtomicI64::new(SIM_EPOCH),
             clock_div: std::sync::atomic::AtomicI64::new(1),
+            runtime_workers: AtomicU32::new(0),
         })
     }
     pub fn snapshot(&self) -> MemStore {
@@ -831,10 +837,12 @@ where
     let ic2 = ic.clone();
     let drain = opts.drain;
     let result = std::panic::catch_unwind(std::panic::AssertUnwindSafe(move || {
-        let rt = tokio::runtime::Builder::new_current_thread()
-            .enable_all()
-            .build()
-            .expect("build runtime");
+        let workers = ic2.core.runtime_workers.load(SeqCst);
+        let rt = if workers == 0 {
+            tokio::runtime::Builder::new_current_thread().enable_all().build().expect("build runtime")
+        } else {
+            tokio::runtime::Builder::new_multi_thread().worker_threads(workers as usize).enable_all().build().expect("build runtime")
+        };
         let r = rt.block_on(async {
             let fut = f(transport);
             tokio::select! {
